@@ -91,6 +91,19 @@ func attrString(v interface{}) (string, bool) {
 	return "", false
 }
 
+// slowRotPayload yields inside HmacSalt (user code that is slow while the filter asks for the new values).
+type slowRotPayload struct {
+	rotPayload
+	yields int
+}
+
+func (p *slowRotPayload) HmacSalt() []byte {
+	for i := 0; i < p.yields; i++ {
+		runtime.Gosched()
+	}
+	return p.salt
+}
+
 // config in force
 type kcfg struct {
 	n    int
@@ -236,6 +249,13 @@ func TestC16(t *testing.T) {
 						opts = append(opts, encrypt.WithInfo(v))
 						desc += fmt.Sprintf("info=%q ", v)
 					}
+				}
+				if len(opts) == 0 && len(cur.info) > 0 && cr.Bool() {
+					// the bytes move from one parameter to the other: what was the info becomes the salt, the info
+					// becomes empty (the concatenation of the two stays the same, the derived key does not)
+					cur.salt, cur.info = append([]byte(nil), cur.info...), []byte{}
+					opts = append(opts, encrypt.WithSalt(cur.salt), encrypt.WithInfo(cur.info))
+					desc += fmt.Sprintf("salt=%q info=%q (moved) ", cur.salt, cur.info)
 				}
 				f.Rotate(opts...)
 				hist = append(hist, desc+")")
@@ -556,6 +576,46 @@ func TestC16(t *testing.T) {
 		}
 		run.Add("configurations_seen_in_outputs", len(usedCfgs))
 		run.Eval(fmt.Sprintf("conc|%d|%d|%d|%d|%d", nproc, nrot, nev, installed, len(usedCfgs)))
+	}
+	// ---- two rotations at once, each changing another part ----------------------------------------------------
+	// A rotation payload that carries only a salt and a Rotate that carries only a wrapper overlap; whichever order
+	// they take effect in, once both have returned the wrapper is the new one and the salt is the new one.
+	np := run.N(300, 10000)
+	for i := 0; i < np && !run.Stop(); i++ {
+		cr := r.Fork()
+		k1, k2 := newKey(cr), newKey(cr)
+		f := &encrypt.Filter{Wrapper: cryp.NewWrapper(k1, "w1"), HmacSalt: []byte("salt-1"), HmacInfo: []byte("info-1")}
+		rp := &slowRotPayload{rotPayload: rotPayload{salt: []byte("salt-2")}, yields: cr.Intn(6)}
+		bar := rt.NewBarrier(2)
+		var wg sync.WaitGroup
+		wg.Add(2)
+		go func() {
+			defer wg.Done()
+			bar.Wait()
+			f.Process(ctx, &eventlogger.Event{Type: "t", Payload: rp})
+		}()
+		go func() {
+			defer wg.Done()
+			bar.Wait()
+			for y := cr.Intn(4); y > 0; y-- {
+				runtime.Gosched()
+			}
+			f.Rotate(encrypt.WithWrapper(cryp.NewWrapper(k2, "w2")))
+		}()
+		wg.Wait()
+		orig := genK(cr)
+		cp := orig
+		out, err := f.Process(ctx, &eventlogger.Event{Type: "t", Payload: &cp})
+		if err != nil || out == nil {
+			run.Violation("history-pattern:refused", fmt.Sprintf("Process failed after two overlapping rotations: %v", err), nil)
+			continue
+		}
+		if why := verifyEvent(orig, *out.Payload.(*KPayload), k2, k2, []byte("salt-2"), []byte("info-1"), [][]byte{k1}); why != "" {
+			run.Violation("history-pattern:overlapping-rotations", "after a salt-only rotation payload and a wrapper-only Rotate have both returned, a later event is not protected under the new wrapper with the new salt: "+why,
+				map[string]any{"payload_yields_inside_HmacSalt": rp.yields})
+		}
+		run.Add("values_verified", 7)
+		run.Eval(fmt.Sprintf("overlap-rot|%d", rp.yields))
 	}
 	_ = wrapping.WithKeyId
 }
